@@ -311,13 +311,13 @@ func TestCheck(t *testing.T) {
 		case "sched":
 			guard(r)
 		default:
-			maxN := mc.Pick(r, 4, 5)
+			maxN := mc.Pick(r, 5, 6)
 			for n := 0; n <= maxN; n++ {
 				for _, dl := range []bool{true, false} {
 					r.Explore(mc.Config{Name: fmt.Sprintf("collect/n%d/deadline=%v", n, dl), Bound: -1}, program(r, n, dl))
 				}
 			}
-			r.Extra["rule"] = "n in 0..4 (5) clocks, each {ok,error} x {returns as an event, returns only after cancellation, never returns until released at the end}; all total orders of clock returns and the cancellation (explicit cancel and virtual deadline); second collection on the same collector under all interleavings of the guard's compare-and-swap operations"
+			r.Extra["rule"] = "n in 0..5 (6) clocks, each {ok,error} x {returns as an event, returns only after cancellation, never returns until released at the end}; all total orders of clock returns and the cancellation (explicit cancel and virtual deadline); second collection on the same collector under all interleavings of the guard's compare-and-swap operations"
 		}
 	})
 }
